@@ -16,6 +16,8 @@ struct FOp
 {
     std::string k; // write | advance | restart | checkpoint | swrite (record for the sibling sink)
     int n = 0; // write: record size in bytes
+    int cat = 0; // write: 0 = category "default", 1 = a named category (message reaches the sink unformatted)
+    int fmt = 0; // write: 1 = the record is the message's *formatted* text, the raw message text differs
     int cls = 0; // write: content class (0 ascii, 1 multi-byte utf-8, 2 long runs, 3 pseudo-random ascii, 4 control characters incl. CR, CR LF, embedded LF)
     int64_t ms = 0; // advance: milliseconds
     int days = 0; // advance: whole days (after ms)
@@ -37,6 +39,9 @@ struct FPlan
     int short_write_pct = 0, eintr_pct = 0;
     uint64_t fault_seed = 1;
     std::vector<int> foreign; // indices into the foreign-name menu
+    int tz_min = 0; // local time zone, minutes east of UTC (TZ is set accordingly; days are local days)
+    int pre_bytes = 0; // >0: the log file exists before the first start and holds that many bytes of binary-looking data
+    int pre_age_days = 0; // ... last written that many days before the run
     int obstacle = 0; // >0: a directory named like rotated file <index> of the first day exists (C05, C10)
     std::string sibling; // base name of a second rotating sink working in the same directory (C06), or empty
     int start_ms_of_day = 12 * 3600 * 1000;
